@@ -356,6 +356,10 @@ impl SimWorld {
 
     fn decide_chunk(st: &mut SchedState) -> usize {
         let n = st.remaining.len();
+        Self::decide_chunk_of(st, n)
+    }
+
+    fn decide_chunk_of(st: &mut SchedState, n: usize) -> usize {
         assert!(n > 0);
         st.decisions += 1;
         let choice = if let Some(script) = &st.script {
@@ -1359,17 +1363,16 @@ impl World for WorldRef {
         }
         if workers <= 1 || me() != 0 {
             // inline: the caller folds every group itself, in an order the scheduler decides
-            let mut st = w.lock_sched();
-            st.remaining = ranges;
-            drop(st);
+            // (a fan-out nested inside a pool job keeps its own list of groups)
+            let mut remaining = ranges;
             loop {
                 let chunk = {
                     let mut st = w.lock_sched();
-                    if st.remaining.is_empty() {
+                    if remaining.is_empty() {
                         None
                     } else {
-                        let idx = SimWorld::decide_chunk(&mut st);
-                        Some(st.remaining.remove(idx))
+                        let idx = SimWorld::decide_chunk_of(&mut st, remaining.len());
+                        Some(remaining.remove(idx))
                     }
                 };
                 let Some(range) = chunk else { break };
@@ -1451,7 +1454,7 @@ impl World for WorldRef {
             SimWorld::probe(&mut g, tag);
             drop(g);
         }
-        if tag == "atomic_access" || tag.ends_with("_wait") || tag == "mutex_lock" {
+        if tag == "atomic_access" || tag.ends_with("_wait") || tag == "mutex_lock" || tag == "channel_send" {
             // synchronisation points are few in a correct run; counting them lets a spin loop
             // run into the step budget (bounded liveness) instead of the wall-clock watchdog
             let mut g = w.lock();
